@@ -60,7 +60,7 @@ def gen(rng, tier):
                 for op in ("proj", "maxu", "umax"):
                     style = rng.choice(["own", "ref", "spx"]) if op == "proj" else "spx"
                     out.append(Case(op, ty, fam, style, [n], nums, tag=tag))
-                if tier != "quick" or rng.chance(1, 4):
+                if tier != "quick" or rng.chance(1, 4) or tag in ("sweep", "tiny_base_rate"):
                     for fam2 in FAMS1:
                         if fam2 != fam:
                             out.append(Case("umax", ty, fam2, "spx", [n], nums, tag=tag))
